@@ -24,11 +24,15 @@ type Exec struct {
 	safety      bool // generate no-panic obligations
 	oblCount    map[string]int
 	unitFn      *ssa.Function
+	noted       map[string][]notedAddr
+	notedSeen   map[string]bool
+	frames      []frameRec
+	notedAll    []notedAddr
 }
 
 func (e *Engine) NewExec(unit string) *Exec {
 	return &Exec{E: e, C: NewCtx(unit), baseSyms: map[string]Term{}, mapValSorts: map[string]Sort{},
-		oblCount: map[string]int{}, safety: true}
+		oblCount: map[string]int{}, safety: true, noted: map[string][]notedAddr{}, notedSeen: map[string]bool{}}
 }
 
 func (x *Exec) initialState() *State {
@@ -454,6 +458,7 @@ func (x *Exec) instr(fr *frame, s *State, in ssa.Instruction) {
 			return
 		}
 		x.nilCheck(fr, s, p, in.Pos(), "struct pointer")
+		x.noteStructAddr(s, deref(in.X.Type()), p.L[0], p.L[1])
 		x.setVal(fr, in, Value{T: in.Type(), L: []Term{p.L[0], offAdd(p.L[1], off)}, NN: true})
 	case *ssa.Field:
 		v := x.operand(fr, s, in.X)
@@ -599,10 +604,73 @@ func deref(t types.Type) types.Type {
 
 // localCell decides whether an Alloc lives in the environment (immune to havoc).
 func (x *Exec) localCell(a *ssa.Alloc) bool {
-	if a.Heap {
+	if hasBigArray(deref(a.Type())) {
 		return false
 	}
-	return !hasBigArray(deref(a.Type()))
+	if !a.Heap {
+		return true
+	}
+	if r, ok := x.E.cellable[a]; ok {
+		return r
+	}
+	r := x.E.onlyDirectUses(a, 0)
+	x.E.cellable[a] = r
+	return r
+}
+
+// onlyDirectUses: an escaping variable can still live in the environment when
+// every use of its address is a direct load or store, in this function or in
+// closures that capture it and are only ever called in place (they are inlined).
+func (e *Engine) onlyDirectUses(v ssa.Value, depth int) bool {
+	if depth > 4 || v.Referrers() == nil {
+		return false
+	}
+	for _, r := range *v.Referrers() {
+		switch u := r.(type) {
+		case *ssa.DebugRef:
+		case *ssa.UnOp:
+			if u.Op != token.MUL {
+				return false
+			}
+		case *ssa.Store:
+			if u.Addr != v || u.Val == v {
+				return false
+			}
+		case *ssa.MakeClosure:
+			// the closure itself must only be called in place (or deferred)
+			for _, cr := range *u.Referrers() {
+				switch c := cr.(type) {
+				case *ssa.DebugRef:
+				case *ssa.Call:
+					if c.Call.Value != u {
+						return false
+					}
+					for _, a := range c.Call.Args {
+						if a == u {
+							return false
+						}
+					}
+				case *ssa.Defer:
+					if c.Call.Value != u {
+						return false
+					}
+				default:
+					return false
+				}
+			}
+			fn := u.Fn.(*ssa.Function)
+			for i, b := range u.Bindings {
+				if b == v {
+					if !e.onlyDirectUses(fn.FreeVars[i], depth+1) {
+						return false
+					}
+				}
+			}
+		default:
+			return false
+		}
+	}
+	return true
 }
 
 func hasBigArray(t types.Type) bool {
@@ -823,17 +891,17 @@ func (x *Exec) binop(fr *frame, s *State, op token.Token, a, b Value, rt types.T
 		case token.NEQ:
 			return one(Not(Eq(a.L[0], b.L[0])))
 		case token.ADD:
-			r := app(SStr, "str.cat", a.L[0], b.L[0])
-			x.C.Assume(Implies(s.Reach, Eq(app(SBV64, "str.len", r), BVOp("bvadd", app(SBV64, "str.len", a.L[0]), app(SBV64, "str.len", b.L[0])))))
+			r := app(SStr, "sx.cat", a.L[0], b.L[0])
+			x.C.Assume(Implies(s.Reach, Eq(app(SBV64, "sx.len", r), BVOp("bvadd", app(SBV64, "sx.len", a.L[0]), app(SBV64, "sx.len", b.L[0])))))
 			return one(r)
 		case token.LSS:
-			return one(app(SBool, "str.lt", a.L[0], b.L[0]))
+			return one(app(SBool, "sx.lt", a.L[0], b.L[0]))
 		case token.GTR:
-			return one(app(SBool, "str.lt", b.L[0], a.L[0]))
+			return one(app(SBool, "sx.lt", b.L[0], a.L[0]))
 		case token.LEQ:
-			return one(Not(app(SBool, "str.lt", b.L[0], a.L[0])))
+			return one(Not(app(SBool, "sx.lt", b.L[0], a.L[0])))
 		case token.GEQ:
-			return one(Not(app(SBool, "str.lt", a.L[0], b.L[0])))
+			return one(Not(app(SBool, "sx.lt", a.L[0], b.L[0])))
 		}
 	case isFloat(at):
 		switch op {
@@ -861,6 +929,10 @@ func (x *Exec) binop(fr *frame, s *State, op token.Token, a, b Value, rt types.T
 			if len(a.L) != len(b.L) {
 				unsup("comparison of %s and %s", a.T, b.T)
 			}
+			if isInterface(a.T) {
+				x.canonicalIface(s, a)
+				x.canonicalIface(s, b)
+			}
 			var cs []Term
 			for i := range a.L {
 				cs = append(cs, Eq(a.L[i], b.L[i]))
@@ -887,29 +959,29 @@ func (x *Exec) convert(fr *frame, s *State, v Value, to types.Type, pos token.Po
 		out.T = to
 		return out
 	case isString(to) && isInteger(from):
-		x.C.DeclareFun("str.fromrune", []Sort{SBV64}, SStr)
-		return Value{T: to, L: []Term{app(SStr, "str.fromrune", Resize(v.L[0], 64, isSigned(from)))}}
+		x.C.DeclareFun("sx.fromrune", []Sort{SBV64}, SStr)
+		return Value{T: to, L: []Term{app(SStr, "sx.fromrune", Resize(v.L[0], 64, isSigned(from)))}}
 	case isString(to):
 		if sl, ok := from.Underlying().(*types.Slice); ok && len(x.E.layout(sl.Elem())) == 1 && x.E.layout(sl.Elem())[0] == SBV8 {
 			// string(bytes): fresh string whose bytes are the slice's
 			r := x.C.Fresh("str", SStr)
 			i := x.C.BoundVar("i", SBV64)
 			h := x.heap(s, SBV8)
-			x.C.Assume(Implies(s.Reach, And(Eq(app(SBV64, "str.len", r), v.L[2]),
+			x.C.Assume(Implies(s.Reach, And(Eq(app(SBV64, "sx.len", r), v.L[2]),
 				Forall([]Term{i}, Implies(BVCmp("bvult", i, v.L[2]),
-					Eq(app(SBV8, "str.at", r, i), Select(Select(h, v.L[0], ObjSort(SBV8)), BVOp("bvadd", v.L[1], i), SBV8)))))))
+					Eq(app(SBV8, "sx.at", r, i), Select(Select(h, v.L[0], ObjSort(SBV8)), BVOp("bvadd", v.L[1], i), SBV8)))))))
 			return Value{T: to, L: []Term{r}}
 		}
-		x.C.DeclareFun("str.fromrunes", []Sort{SInt, SBV64, SBV64}, SStr)
+		x.C.DeclareFun("sx.fromrunes", []Sort{SInt, SBV64, SBV64}, SStr)
 		return Value{T: to, L: []Term{x.C.Fresh("str", SStr)}}
 	case isString(from):
 		if sl, ok := to.Underlying().(*types.Slice); ok && len(x.E.layout(sl.Elem())) == 1 && x.E.layout(sl.Elem())[0] == SBV8 {
 			r := x.alloc(s, "bytes")
-			ln := app(SBV64, "str.len", v.L[0])
+			ln := app(SBV64, "sx.len", v.L[0])
 			h := x.heap(s, SBV8)
 			obj := x.C.Fresh("obj", ObjSort(SBV8))
 			i := x.C.BoundVar("i", SBV64)
-			x.C.Assume(Implies(s.Reach, Forall([]Term{i}, Implies(BVCmp("bvult", i, ln), Eq(Select(obj, i, SBV8), app(SBV8, "str.at", v.L[0], i))))))
+			x.C.Assume(Implies(s.Reach, Forall([]Term{i}, Implies(BVCmp("bvult", i, ln), Eq(Select(obj, i, SBV8), app(SBV8, "sx.at", v.L[0], i))))))
 			s.Heaps[SBV8] = x.C.Define("H", Store(h, r, obj))
 			x.C.Assume(Implies(s.Reach, BVCmp("bvult", ln, BVLitI(64, 1<<40))))
 			return Value{T: to, L: []Term{r, BVLitI(64, 0), ln, ln}}
@@ -952,6 +1024,17 @@ func (x *Exec) makeInterface(s *State, v Value, to types.Type) Value {
 	// box the value: scalar payloads are boxed in a fresh immutable object whose
 	// identity is a function of the payload, so equal payloads compare equal.
 	ls := x.E.layout(v.T)
+	if len(ls) == 1 && (ls[0].IsBV() || ls[0] == SBool) {
+		// small scalars travel inside the interface value itself (ref -1, payload in the offset leaf)
+		x.E.scalarTags[x.E.typeID(v.T)] = ls[0]
+		var pay Term
+		if ls[0] == SBool {
+			pay = Ite(v.L[0], BVLitI(64, 1), BVLitI(64, 0))
+		} else {
+			pay = Resize(v.L[0], 64, false)
+		}
+		return Value{T: to, L: []Term{tag, IntLit(-1), pay}}
+	}
 	if len(ls) == 1 && ls[0] != SInt {
 		name := "box_" + sanitize(string(ls[0]))
 		x.C.DeclareFun(name, []Sort{ls[0]}, SInt)
@@ -971,6 +1054,16 @@ func (x *Exec) unbox(s *State, iface Value, t types.Type) Value {
 		return Value{T: t, L: []Term{iface.L[1], iface.L[2]}}
 	}
 	ls := x.E.layout(t)
+	if len(ls) == 1 && (ls[0].IsBV() || ls[0] == SBool) {
+		x.E.scalarTags[x.E.typeID(t)] = ls[0]
+		x.canonicalIface(s, iface)
+	}
+	if len(ls) == 1 && ls[0] == SBool {
+		return Value{T: t, L: []Term{Not(Eq(iface.L[2], BVLitI(64, 0)))}}
+	}
+	if len(ls) == 1 && ls[0].IsBV() {
+		return Value{T: t, L: []Term{Resize(iface.L[2], ls[0].Width(), false)}}
+	}
 	if len(ls) == 1 && ls[0] != SInt {
 		name := "box_" + sanitize(string(ls[0]))
 		x.C.DeclareFun(name, []Sort{ls[0]}, SInt)
@@ -1075,9 +1168,9 @@ func (x *Exec) index(fr *frame, s *State, in *ssa.Index) {
 		}
 		x.setVal(fr, in, out)
 	case *types.Basic: // string
-		ln := app(SBV64, "str.len", base.L[0])
+		ln := app(SBV64, "sx.len", base.L[0])
 		x.boundsCheck(fr, s, idx, ln, in.Pos(), "string")
-		x.setVal(fr, in, Value{T: in.Type(), L: []Term{app(SBV8, "str.at", base.L[0], idx)}})
+		x.setVal(fr, in, Value{T: in.Type(), L: []Term{app(SBV8, "sx.at", base.L[0], idx)}})
 	default:
 		unsup("Index on %s", in.X.Type())
 	}
@@ -1099,22 +1192,22 @@ func (x *Exec) slice(fr *frame, s *State, in *ssa.Slice) {
 	}
 	switch u := in.X.Type().Underlying().(type) {
 	case *types.Basic: // string
-		ln := app(SBV64, "str.len", base.L[0])
+		ln := app(SBV64, "sx.len", base.L[0])
 		if in.High != nil {
 			hi = x.idx64(fr, s, in.High)
 		} else {
 			hi = ln
 		}
 		chk(And(BVCmp("bvule", lo, hi), BVCmp("bvule", hi, ln)), "string slice: 0 <= low <= high <= len")
-		r := app(SStr, "str.sub", base.L[0], lo, hi)
+		r := app(SStr, "sx.sub", base.L[0], lo, hi)
 		if lo.S == zero.S && in.High == nil {
 			r = base.L[0]
 		}
-		x.C.Assume(Implies(s.Reach, Eq(app(SBV64, "str.len", r), BVOp("bvsub", hi, lo))))
+		x.C.Assume(Implies(s.Reach, Eq(app(SBV64, "sx.len", r), BVOp("bvsub", hi, lo))))
 		if x.C.noDefine == 0 {
 			i := x.C.BoundVar("i", SBV64)
 			x.C.Assume(Implies(s.Reach, Forall([]Term{i}, Implies(BVCmp("bvult", i, BVOp("bvsub", hi, lo)),
-				Eq(app(SBV8, "str.at", r, i), app(SBV8, "str.at", base.L[0], BVOp("bvadd", lo, i)))))))
+				Eq(app(SBV8, "sx.at", r, i), app(SBV8, "sx.at", base.L[0], BVOp("bvadd", lo, i)))))))
 		}
 		x.setVal(fr, in, Value{T: in.Type(), L: []Term{r}})
 		return
@@ -1205,9 +1298,9 @@ func (x *Exec) lookup(fr *frame, s *State, in *ssa.Lookup) {
 	}
 	// string index
 	idx := x.idx64(fr, s, in.Index)
-	ln := app(SBV64, "str.len", base.L[0])
+	ln := app(SBV64, "sx.len", base.L[0])
 	x.boundsCheck(fr, s, idx, ln, in.Pos(), "string")
-	x.setVal(fr, in, Value{T: in.Type(), L: []Term{app(SBV8, "str.at", base.L[0], idx)}})
+	x.setVal(fr, in, Value{T: in.Type(), L: []Term{app(SBV8, "sx.at", base.L[0], idx)}})
 }
 
 func (x *Exec) mapStore(s *State, m Value, key, val Value, mt *types.Map) {
@@ -1255,7 +1348,7 @@ func (x *Exec) next(fr *frame, s *State, in *ssa.Next) {
 	if in.IsString {
 		k := x.freshValue(s, "rk", tup.At(1).Type())
 		r := x.freshValue(s, "rv", tup.At(2).Type())
-		ln := app(SBV64, "str.len", coll.L[0])
+		ln := app(SBV64, "sx.len", coll.L[0])
 		x.C.Assume(Implies(And(s.Reach, ok), BVCmp("bvult", k.L[0], ln)))
 		out.L = append(out.L, k.L...)
 		out.L = append(out.L, r.L...)
@@ -1275,4 +1368,27 @@ func (x *Exec) next(fr *frame, s *State, in *ssa.Next) {
 		x.C.Abstracted["range over map (arbitrary order, no completeness)"]++
 	}
 	x.setVal(fr, in, out)
+}
+
+// canonicalIface: an interface value whose dynamic type is a small scalar has the
+// canonical representation (ref -1, zero-extended payload), as makeInterface builds it.
+func (x *Exec) canonicalIface(s *State, v Value) {
+	if x.C.noDefine > 0 || len(v.L) != 3 {
+		return
+	}
+	var ids []int64
+	for id := range x.E.scalarTags {
+		ids = append(ids, id)
+	}
+	sort.Slice(ids, func(i, j int) bool { return ids[i] < ids[j] })
+	for _, id := range ids {
+		srt := x.E.scalarTags[id]
+		c := Eq(v.L[1], IntLit(-1))
+		if srt == SBool {
+			c = And(c, BVCmp("bvule", v.L[2], BVLitI(64, 1)))
+		} else if w := srt.Width(); w < 64 {
+			c = And(c, BVCmp("bvult", v.L[2], BVLitI(64, int64(1)<<uint(w))))
+		}
+		x.C.Assume(Implies(Eq(v.L[0], IntLit(id)), c))
+	}
 }
